@@ -371,6 +371,40 @@ def systematic(col, rng):
                             run_case(col, target, log, steps, spelling, rng, fault, k, types[:k + 1])
 
 
+def virtual_types(col):
+    """the access registered for an ABC applies to its virtual subclasses (MappingProxyType is a Mapping, range a Sequence)
+    along a path, and a type registered with exact=True does not cover its subclasses"""
+    import collections.abc
+    import operator
+    import types
+    g = Glommer()
+    g.register(collections.abc.Mapping, get=operator.getitem)
+    g.register(collections.abc.Sequence, get=lambda s, i: s[int(i)])
+
+    class ExactOnly(dict):
+        pass
+
+    class SubOfExact(ExactOnly):
+        pass
+    g.register(ExactOnly, get=lambda o, k: ('exact-handler', k), exact=True)
+    target = {'cfg': types.MappingProxyType({'db': types.MappingProxyType({'host': 'h'}), 'items': 'an-entry'}), 'r': range(5),
+              'e': ExactOnly(k=1), 's': SubOfExact(k=2)}
+    cases = [('cfg.db.host', ('ok', 'h')), ('cfg.items', ('ok', 'an-entry')), ('cfg.nope.x', ('pae', 1, KeyError)), ('r.2', ('ok', 2)),
+             ('r.9', ('pae', 1, IndexError)), ('e.k', ('ok', ('exact-handler', 'k'))), ('s.k', ('ok', 2))]
+    for spec, want in cases:
+        for form in (spec, Path(*spec.split('.'))):
+            got = call(g.glom, target, form)
+            col.case(('virtual-types', spec, type(form).__name__), True)
+            col.count('valid_paths' if want[0] == 'ok' else 'failing_paths')
+            if want[0] == 'ok':
+                ok = got.ok and got.value == want[1]
+            else:
+                ok = (not got.ok) and isinstance(got.exc, PathAccessError) and got.exc.part_idx == want[1] and isinstance(got.exc.exc, want[2])
+            if not ok:
+                col.violation('C01/virtual-or-exact-registration-not-honoured-along-a-path', 'Glommer with Mapping / Sequence / an exact=True type registered, '
+                              '%r: %r, expected %r' % (form, got, want), None)
+
+
 def run(ctx):
     col, rng = ctx.col, ctx.rng
     col.require('valid_paths', 200)
@@ -379,5 +413,6 @@ def run(ctx):
     col.require('handler_invocations_logged', 200)
     if ctx.shard == 0:
         systematic(col, rng)
+        virtual_types(col)
     for i in range(ctx.n(500, 4000)):
         one_target(col, rng, 12)
